@@ -3,6 +3,7 @@ import Cirbo.Model.Eval
 import Cirbo.Model.Checkers
 import Cirbo.Model.Traverse
 import Cirbo.Model.Tseytin
+import Cirbo.Model.Codec
 /-! `cirbo_model`: one JSON request per input line, one JSON response per output line. -/
 open Lean Cirbo Driver
 
@@ -19,6 +20,13 @@ def jEv : Ev → Json
   | .yield l => Json.arr #[Json.str "yield", Json.str l]
   | .unvisited l => Json.arr #[Json.str "unvisited", Json.str l]
   | .done => Json.arr #[Json.str "end"]
+
+def nats (j : Json) : Except String (List Nat) := do
+  (← j.getArr?).toList.mapM (·.getNat?)
+def jNats (l : List Nat) : Json := Json.arr (l.map (fun n => Json.num (Lean.JsonNumber.fromNat n))).toArray
+def ofOpt {α} (f : α → Json) (e : String) : Option α → Json
+  | some a => ok (f a)
+  | none => err e
 
 def handle (j : Json) : Except String Json := do
   let op ← (← j.getObjVal? "op").getStr?
@@ -84,6 +92,37 @@ def handle (j : Json) : Except String Json := do
       ("cnf", Json.arr (r.1.map (fun cl => Json.arr (cl.map (fun l => Json.num (Lean.JsonNumber.fromInt l))).toArray)).toArray),
       ("lits", Json.arr (r.2.map (fun p => Json.arr #[Json.str p.1, Json.num (Lean.JsonNumber.fromInt (Int.ofNat p.2))])).toArray)])
       (tseytin c outs))
+  | "encode" => do
+    let c ← getCircuit j
+    pure (ofExcept jNats (encodeCircuit c))
+  | "decode" => do
+    let bs ← nats (← j.getObjVal? "bytes")
+    pure (ofExcept jCircuit (decodeCircuit bs))
+  | "bit_write" => do
+    -- writes: [[k, w], ...] -> bytes
+    let ws ← (← (← j.getObjVal? "writes").getArr?).toList.mapM (fun p => do
+      let a ← nats p
+      pure (a.getD 0 0, a.getD 1 0))
+    let r : W := ws.foldl (fun w p => wnum w p.1 p.2) (.ok [])
+    pure (ofExcept (fun bits => jNats (packBytes bits)) r)
+  | "bit_read" => do
+    let bs ← nats (← j.getObjVal? "bytes")
+    let widths ← nats (← j.getObjVal? "widths")
+    let r : Except String (List Nat × Nat) := widths.foldl (fun acc w => match acc with
+      | .error e => .error e
+      | .ok (vals, pos) => match rnum bs pos w with
+        | .error e => .error e
+        | .ok (v, pos') => .ok (vals ++ [v], pos')) (.ok ([], 0))
+    pure (ofExcept (fun r => jNats r.1) r)
+  | "write_dict" => do
+    let es ← (← (← j.getObjVal? "entries").getArr?).toList.mapM (fun p => do
+      let a ← p.getArr?
+      pure (← nats a[0]!, ← nats a[1]!))
+    pure (ofOpt jNats "Py:OverflowError" (writeDict es))
+  | "read_dict" => do
+    let bs ← nats (← j.getObjVal? "bytes")
+    pure (ofOpt (fun d => Json.arr (d.map (fun kv => Json.arr #[jNats kv.1, jNats kv.2])).toArray)
+      "BinaryDictIOError" (readDict bs))
   | "optable_issues" => pure (ok (jStrs opTableIssues))
   | "check_wf" => do
     let c ← getCircuit j
